@@ -163,11 +163,12 @@ PROPS = {
             'cursor discipline of the format side: take_scalar_event / take_scalar_cow_event (exactly one scalar, its text, tag and location), expect_seq_start / expect_map_start (exactly one event of that kind), peek_anchor_id (never consumes)',
             'VA::expect_map_end: closes exactly one mapping or fails; VA::unit_variant accepts only `Variant`, `{Variant}` closing at once, or `{Variant: <null-like>}`',
             'enforce_single_document_and_finish: succeeds only if nothing is left after the root value (or only garbage after an explicit document end)',
+            'the two in-line copies of that check in src/lib.rs (from_str_with_options_impl, from_reader_with_options), lifted as statement fragments: same obligation',
             'typed integer entry points and deserialize_bytes consume exactly the events of their own node (one scalar; or SeqStart..SeqEnd) before the visitor runs',
             'deserialize_option: None exactly for nothing left / a container end / a !!null scalar / a null-like scalar (consumed: exactly that scalar) / an empty-mapping key (consumed whole); otherwise the visitor gets the deserializer with the cursor untouched. deserialize_unit: accepts only absence or a PLAIN null-like scalar',
             'SA::next_element_seed (sequence access): None exactly at the SeqEnd, which is left for the caller; otherwise the element seed runs at the untouched cursor with the element\'s own location; end of input inside a sequence is an error',
         ],
-        not_covered=['arity / field-name checks of serde-generated visitors; deserialize_option / deserialize_unit / deserialize_enum bodies (generic over Visitor); the inline copies of the leftover check in src/lib.rs entry points; the reference interpreter comparison'],
+        not_covered=['arity / field-name checks of serde-generated visitors; deserialize_option / deserialize_unit / deserialize_enum bodies (generic over Visitor); the leftover checks of the feature-gated *_valid / *_validate entry points; the reference interpreter comparison'],
         assumptions=['scalar_is_nullish is used as an uninterpreted function of text and style'],
     ),
     'C12': dict(
